@@ -5,7 +5,7 @@ from evalutil import *
 
 ID = "C03"
 LEVEL = "proof"
-MODULES = ["H3Proofs.Props.C03", "H3Proofs.Props.C03Enum", "H3Proofs.Props.C03Count", "H3Proofs.Props.C04Iter"]
+MODULES = ["H3Proofs.Props.C03", "H3Proofs.Props.C03Enum", "H3Proofs.Props.C03Count", "H3Proofs.Props.C04Iter", "H3Proofs.Props.C03Round"]
 THEOREMS = "auto"
 ASSUMPTIONS = ["the centre round trip latLngToCell(cellToLatLng h) = h involves the gnomonic projection (acos, tan, "
                "atan2): it is NOT a theorem; the model answers `rt h` by the specification (ok h for valid h), so the "
@@ -14,7 +14,12 @@ ASSUMPTIONS = ["the centre round trip latLngToCell(cellToLatLng h) = h involves 
 ASSUMPTIONS.append("the loop-faithful iterator model (iterInitRes / iterStepRes) is PROVED equal to the specification-level "
                    "enumeration cellsEnumS (C04Iter.cellsEnum_eq); valid_cell_count (the values the generated isValidCell accepts at "
                    "resolution r form a duplicate-free list of 2+120*7^r) is a theorem")
-NOT_PROVED = ["centre round trip (float leg)"]
+ASSUMPTIONS.append("integer half of the round trip PROVED for hexagon base cells at every resolution: _faceIjkToH3 of the cell's "
+                   "coordinate on its base cell's home face is the cell (C03Round.faceIjkToH3_home: digit recovery + lookup-table facts), "
+                   "and _faceIjkToH3 (_h3ToFaceIjk h) = h unconditionally for the 20 face-centred base cells")
+NOT_PROVED = ["centre round trip, float leg (gnomonic projection and its inverse, closest face)",
+              "integer half across faces (overage adjustment onto neighbouring faces, base-cell rotations) and in pentagon base cells: "
+              "compared with the model cell by cell, not proved"]
 EXPLANATION = ("closed-form counts and the pentagon set are theorems over regenerated tables; the enumeration by the "
                "library's own iterator is compared with the model's; the round trip is run on all cells of the coarse "
                "resolutions, every pentagon neighbourhood, walks along all 30 icosahedron edges at every resolution")
